@@ -16,6 +16,7 @@ structure Cfg where
      (the driver always runs with the defaults); theorems quantify over every `cfg`, witnesses of a repaired defect name the
      switch they turn off -/
   fixStpUnterm : Bool := true   -- e5bca6e: stpcpy_s / stpncpy_s clear dest on the "src unterminated" exit
+  fixWcaseOrder : Bool := true  -- 7997192, c770409: wcslwr_s / wcsupr_s test the remaining length before they read the next cell
   fixInnerBos : Bool := true    -- abc5a20, 913acf6: getenv_s / strerror_s hand destbos on to their closing strcpy_s
   deriving Repr, DecidableEq, Inhabited
 
